@@ -216,7 +216,7 @@ func vacuousCovers(covers []*Obligation) []string {
 			reach[c.Name] = false
 			order = append(order, c.Name)
 		}
-		if c.Result == nil || c.Result.Status != "unsat" {
+		if c.Result != nil && c.Result.Status != "unsat" {
 			reach[c.Name] = true
 		}
 	}
